@@ -86,8 +86,17 @@ Theorem C06_sort_never_raises : forall f (l : list (nat * pv)),
 Proof. intros f l. exact (sort_law tbl generated_table_ok f nat l). Qed.
 Print Assumptions C06_sort_never_raises.
 
-(* classes with use_symbolic_comparison: == and != are sym_eq, i.e. pg.eq / pg.ne *)
-Theorem C06_object_operators : forall a b, (exists n u e, a = PObj n u e) -> op_eq a b = eq a b /\ op_ne a b = ne a b.
-Proof. exact op_eq_law. Qed.
+(* classes with use_symbolic_comparison: == and != are sym_eq, i.e. pg.eq / pg.ne
+(also hash() is sym_hash; [same]: a and b are one Python object, in which case Object.sym_eq answers by identity) *)
+Theorem C06_object_operators : forall f same a b, (exists n u e, a = PObj n u e) -> (same = true -> a = b) ->
+  cmp_ok tbl f a = true ->
+  op_eq true same a b = eq a b /\ op_ne true same a b = ne a b /\ op_hash tbl true a = Some (hpre tbl a).
+Proof. intros f. exact (op_eq_law tbl generated_table_ok f). Qed.
 Print Assumptions C06_object_operators.
+
+(* base.eq's `left is right` shortcut is invisible on the domain *)
+Theorem C06_identity_shortcut : forall f same a b, (same = true -> a = b) -> cmp_ok tbl f a = true ->
+  eq_top same a b = eq a b.
+Proof. intros f. exact (eq_top_law tbl generated_table_ok f). Qed.
+Print Assumptions C06_identity_shortcut.
 
